@@ -39,6 +39,50 @@ theorem findDeclEnd_spec : ∀ (pre : List Char) (k : Nat) (r acc : List Char), 
     congr 2
     omega
 
+/-- ` version="1.0" encoding="windows-1252"` -/
+def declMid1252 : List Char :=
+  [' ', 'v', 'e', 'r', 's', 'i', 'o', 'n', '=', '"', '1', '.', '0', '"', ' ',
+   'e', 'n', 'c', 'o', 'd', 'i', 'n', 'g', '=', '"', 'w', 'i', 'n', 'd', 'o', 'w', 's', '-', '1', '2', '5', '2', '"']
+
+/-- `<?xml version="1.0" encoding="windows-1252"?>` -/
+def declChars1252 : List Char := ['<', '?', 'x', 'm', 'l'] ++ (declMid1252 ++ ['?', '>'])
+
+def declBytes1252 : List UInt8 := declChars1252.map fun c => c.toNat.toUInt8
+
+theorem declContent1252 :
+    procInst "version" declMid1252 = "1.0".toList ∧
+    lowerAscii (procInst "encoding" declMid1252) = "windows-1252".toList ∧
+    declMid1252.any (fun c => c.toNat ≥ 128) = false := by
+  decide +kernel
+
+/-- a declaration `<?xml` ++ mid ++ `?>` whose content starts with a space and has no `?` -/
+theorem splitDecl_mid (mid : List Char) (bytes : List UInt8) (body : List UInt8) (tail : List Char)
+    (hb : bytesToAscii bytes = ['<', '?', 'x', 'm', 'l'] ++ (mid ++ '?' :: '>' :: tail))
+    (hsp : ∃ r, mid = ' ' :: r) (hq : ∀ c ∈ mid, c ≠ '?')
+    (hdrop : List.drop (5 + mid.length + 2) bytes = body) :
+    splitDecl bytes =
+      if mid.any (fun c => c.toNat ≥ 128) then .unmodelled else
+      if !(procInst "version" mid).isEmpty ∧ procInst "version" mid ≠ "1.0".toList then .err .parse
+      else if (lowerAscii (procInst "encoding" mid)).isEmpty ∨ lowerAscii (procInst "encoding" mid) = "utf-8".toList then
+        .ok (body, false)
+      else if lowerAscii (procInst "encoding" mid) = "windows-1252".toList ∨
+          lowerAscii (procInst "encoding" mid) = "cp1252".toList then .ok (body, true)
+      else .unmodelled := by
+  have hfind := findDeclEnd_spec mid (2 + tail.length) tail [] hq
+  have hlen : (mid ++ '?' :: '>' :: tail).length + 1 = 2 + tail.length + mid.length + 1 := by
+    simp only [List.length_append, List.length_cons]; omega
+  obtain ⟨r, hr⟩ := hsp
+  unfold splitDecl
+  simp only [hb]
+  have e0 : "<?xml".toList = ['<', '?', 'x', 'm', 'l'] := by decide
+  rw [e0, stripPrefix_append]
+  have hcons : mid ++ '?' :: '>' :: tail = ' ' :: (r ++ '?' :: '>' :: tail) := by rw [hr]; rfl
+  have hs : isSpace ' ' = true := by decide
+  rw [hcons]
+  simp only [hs, if_true, Outcome.bind]
+  rw [← hcons, hlen, hfind]
+  simp only [List.append_nil, List.reverse_reverse, List.length_nil, Nat.zero_add, hdrop]
+
 /-- the declaration the encoder writes selects UTF-8 and the body starts right after it -/
 theorem splitDecl_decl (body : List UInt8) : splitDecl (declBytes ++ body) = .ok (body, false) := by
   have hb : bytesToAscii (declBytes ++ body) = ['<', '?', 'x', 'm', 'l'] ++ (declMid ++ '?' :: '>' :: bytesToAscii body) := by
@@ -46,25 +90,31 @@ theorem splitDecl_decl (body : List UInt8) : splitDecl (declBytes ++ body) = .ok
     have : List.map (fun b : UInt8 => Char.ofNat b.toNat) declBytes = declChars := by decide +kernel
     rw [this]
     simp [declChars]
-  have hq : ∀ c ∈ declMid, c ≠ '?' := by decide
-  have hfind := findDeclEnd_spec declMid (2 + (bytesToAscii body).length) (bytesToAscii body) [] hq
-  have hlen : (declMid ++ '?' :: '>' :: bytesToAscii body).length + 1 = 2 + (bytesToAscii body).length + declMid.length + 1 := by
-    simp only [List.length_append, List.length_cons]; omega
-  obtain ⟨h1, h2, h3⟩ := declContent
-  have hdrop : List.drop (5 + (([] : List Char).length + declMid.length) + 2) (declBytes ++ body) = body := by
-    have : 5 + (([] : List Char).length + declMid.length) + 2 = declBytes.length := by decide
+  have hdrop : List.drop (5 + declMid.length + 2) (declBytes ++ body) = body := by
+    have : 5 + declMid.length + 2 = declBytes.length := by decide
     rw [this, List.drop_left]
-  unfold splitDecl
-  simp only [hb]
-  have e0 : "<?xml".toList = ['<', '?', 'x', 'm', 'l'] := by decide
-  rw [e0, stripPrefix_append]
-  have hcons : declMid ++ '?' :: '>' :: bytesToAscii body =
-      ' ' :: (declMid.tail ++ '?' :: '>' :: bytesToAscii body) := rfl
-  have hs : isSpace ' ' = true := by decide
-  rw [hcons]
-  simp only [hs, if_true, Outcome.bind]
-  rw [← hcons, hlen, hfind]
-  simp only [List.append_nil, List.reverse_reverse, h3, Bool.false_eq_true, if_false, h1, h2, hdrop]
+  obtain ⟨h1, h2, h3⟩ := declContent
+  rw [splitDecl_mid declMid _ body _ hb ⟨_, rfl⟩ (by decide) hdrop]
+  simp only [h3, Bool.false_eq_true, if_false, h1, h2]
   simp
+
+/-- LapTimer's own declaration selects windows-1252 -/
+theorem splitDecl_decl1252 (body : List UInt8) : splitDecl (declBytes1252 ++ body) = .ok (body, true) := by
+  have hb : bytesToAscii (declBytes1252 ++ body) =
+      ['<', '?', 'x', 'm', 'l'] ++ (declMid1252 ++ '?' :: '>' :: bytesToAscii body) := by
+    simp only [bytesToAscii, List.map_append]
+    have : List.map (fun b : UInt8 => Char.ofNat b.toNat) declBytes1252 = declChars1252 := by decide +kernel
+    rw [this]
+    simp [declChars1252]
+  have hdrop : List.drop (5 + declMid1252.length + 2) (declBytes1252 ++ body) = body := by
+    have : 5 + declMid1252.length + 2 = declBytes1252.length := by decide
+    rw [this, List.drop_left]
+  obtain ⟨h1, h2, h3⟩ := declContent1252
+  rw [splitDecl_mid declMid1252 _ body _ hb ⟨_, rfl⟩ (by decide) hdrop]
+  simp only [h3, Bool.false_eq_true, if_false, h1, h2]
+  have e1 : ("1.0".toList.isEmpty = false) := by decide
+  have e2 : ("windows-1252".toList.isEmpty = false) := by decide
+  have e3 : ("windows-1252".toList = "utf-8".toList) = False := by decide
+  simp [e1, e2, e3]
 
 end TrackVerif.LT
